@@ -122,3 +122,28 @@ package sqlx
 //@ func (t txSession) QueryRowsPartialCtx
 //@   property C14
 //@   ensures commits == old(commits) && rollbacks == old(rollbacks)
+
+// C01 what the sql adapter tells the breaker about a failure while reading rows: only a genuine scan failure (the caller's
+// destination does not fit) is harmless; a deadline that expires while rows are being read is NOT - it is judged by the
+// connection's acceptability like any other error, on the plain and on the prepared-statement path alike
+//@ func isScanFailed
+//@   property C01
+//@   ensures result == (err != nil && !errors.Is(err, context.DeadlineExceeded))
+//@   modifies nothing
+//@ func (db *commonSqlConn) queryRows closure 1
+//@   property C01
+//@   flag callbacks_noheap
+//@   ghost at after scanner#0: sf0 = scanFailed
+//@   ensures result == ret(scanner) && calls(scanner) == old(calls(scanner)) + 1
+//@   ensures_local scanFailed == (sf0 || (result != nil && !errors.Is(result, context.DeadlineExceeded)))
+//@ func (db *commonSqlConn) queryRows closure 2
+//@   property C01
+//@   flag callbacks_noheap
+//@   requires db != nil
+//@   ensures implies(scanFailed, result)
+//@ func (s statement) queryRows closure 1
+//@   property C01
+//@   flag callbacks_noheap
+//@   ghost at after scanFn#0: sf0 = scanFailed
+//@   ensures result == ret(scanFn) && calls(scanFn) == old(calls(scanFn)) + 1
+//@   ensures_local scanFailed == (sf0 || (result != nil && !errors.Is(result, context.DeadlineExceeded)))
